@@ -163,7 +163,7 @@ class GenModel(object):
             return self.build({"Line": "Line_PP", "Segment": "Segment_PP", "HalfLine": "HalfLine_PP"}[t], [a, b], t)
         if t == "ConvexPolygon":
             g = self.polygon_group()
-            return self.build("Polygon", list(g["leaves"]), "ConvexPolygon", container="tuple")
+            return self.build("Polygon", list(g["leaves"]), "ConvexPolygon", container="tuple", check_convex=r.random() < 0.3)
         if t == "ConvexPolyhedron":
             if have:
                 return r.choice(have)
@@ -192,7 +192,7 @@ class GenModel(object):
         for f in body["faces"]:
             ids = [leaves[i] for i in f]
             r.shuffle(ids) if False else None
-            faces.append(self.build("Polygon", ids, "ConvexPolygon", container=r.choice(["tuple", "list"])))
+            faces.append(self.build("Polygon", ids, "ConvexPolygon", container=r.choice(["tuple", "list"]), check_convex=r.random() < 0.2))
         ph = self.build("Polyhedron", faces, "ConvexPolyhedron")
         g = {"leaves": leaves, "dirty": False, "kind": "body", "faces": faces, "body": ph}
         self.groups.append(g)
@@ -227,7 +227,7 @@ class GenModel(object):
                     if not X.parallel(X.sub(c[1], c[0]), X.sub(c[2], c[0])):
                         break
                     r.shuffle(ids)
-                return self.build("Polygon", ids, "ConvexPolygon", container=r.choice(["tuple", "list"]))
+                return self.build("Polygon", ids, "ConvexPolygon", container=r.choice(["tuple", "list"]), check_convex=r.random() < 0.3)
         if choice < 0.78 and P and len(Vv) >= 2:
             a, b = r.sample(Vv, 2)
             if not X.parallel(self.ent[a]["c"], self.ent[b]["c"]):
@@ -243,7 +243,7 @@ class GenModel(object):
         if choice < 0.90:
             polys = self.ids(lambda e: e["t"] == "ConvexPolygon" and e["kind"] in ("composite", "copy"))
             if polys:  # a polygon built from the internal Points of another polygon
-                return self.build("Polygon_of_points", [r.choice(polys)], "ConvexPolygon", reverse=r.random() < 0.3)
+                return self.build("Polygon_of_points", [r.choice(polys)], "ConvexPolygon", reverse=r.random() < 0.3, check_convex=r.random() < 0.3)
         if choice < 0.915:
             phs = self.ids(lambda e: e["t"] == "ConvexPolyhedron" and e["kind"] in ("composite", "copy"))
             if phs:  # a polyhedron built from the internal faces of another polyhedron
@@ -604,7 +604,8 @@ def _ctor(op):
     if c == "Line_PP":
         return G.Line
     if c == "Polygon":
-        return (lambda *pts: G.ConvexPolygon(list(pts))) if op.get("container") == "list" else (lambda *pts: G.ConvexPolygon(tuple(pts)))
+        kw = {"check_convex": True} if op.get("check_convex") else {}
+        return (lambda *pts: G.ConvexPolygon(list(pts), **kw)) if op.get("container") == "list" else (lambda *pts: G.ConvexPolygon(tuple(pts), **kw))
     if c == "Polyhedron":
         return lambda *faces: G.ConvexPolyhedron(tuple(faces))
     if c == "Parallelogram":
@@ -614,7 +615,7 @@ def _ctor(op):
     if c == "Neg":
         return lambda p: -p
     if c == "Polygon_of_points":
-        return lambda p: G.ConvexPolygon(p.points, reverse=bool(op.get("reverse")))
+        return lambda p: G.ConvexPolygon(p.points, reverse=bool(op.get("reverse")), check_convex=bool(op.get("check_convex")))
     if c == "Polyhedron_of_faces":
         return lambda ph: G.ConvexPolyhedron(ph.convex_polygons)
     if c == "Vector_PP":
